@@ -231,7 +231,10 @@ def step (ms : MState) (op : String) (args impl : List String) : MState × Pred 
   | _, _ =>
   if !ms.isOpen then fail "op on a closed file" else
   if ms.ro && !(["getlinkh", "get", "has", "count", "list", "valid", "drop", "idof", "dump", "dumpx", "xcheck", "xlinks", "countlink", "listlink",
-                 "haslink", "getlink", "dims", "gdim", "pget", "da_read1", "getf", "find", "validate"].contains op) then fail "mutator in a read-only session" else
+                 "haslink", "getlink", "dims", "gdim", "pget", "da_read1", "getf", "find", "validate", "hdump", "xfeat"].contains op) then
+    -- a mutator in a read-only session: whatever it answers (an exception, or `false` for "there was nothing to remove"), the file
+    -- stays as it is — the next dump is compared with the unchanged store
+    (ms, .skip) else
   match op, args with
   | "mk", slot :: kind :: par :: nameTok :: typeTok :: extra =>
     match parseStr nameTok, parentOf ms par with
@@ -548,13 +551,20 @@ def step (ms : MState) (op : String) (args impl : List String) : MState × Pred 
          | none => fail "units token")
       else if h.kind == "R" && field == "linktype" then unit (s.setAttr h.obj "link_type" value, .ok ())
       else if h.kind == "P" then (ms, .skip)
+      else if h.kind == "A" && (field == "origin" || field == "poly") then (ms, .skip)     -- calibration: not carried by the store model
       else fail s!"set {field} on {h.kind}"
     | _ => fail "set through an uninitialised holder"
   -- ops that touch only what the store model does not carry
   | "adim", _ | "sdim", _ | "ddims", _ | "pvalues", _ | "pset", _ | "dims", _ | "gdim", _ | "pget", _ | "da_read1", _ => (ms, .skip)
-  | "da_setext", slot :: _ | "da_fill", slot :: _ =>
+  -- the extent of an array is carried (MultiTag::extents compares the extents of two arrays): an accepted `da_setext` sets it to the
+  -- requested shape, an accepted whole-array write of a vector of n elements to [n]
+  | "da_setext", [slot, shape] =>
     match slot? ms slot with
-    | some (some h) => ({ ms with store := if implOk impl then s.setAttr h.obj "ds:shape" "?" else s }, .skip)
+    | some (some h) => ({ ms with store := if implOk impl then s.setAttr h.obj "ds:shape" shape else s }, .skip)
+    | _ => (ms, .skip)
+  | "da_fill", [slot, vals] =>
+    match slot? ms slot with
+    | some (some h) => ({ ms with store := if implOk impl then s.setAttr h.obj "ds:shape" (fmtList [toString ((parseList vals).getD []).length]) else s }, .skip)
     | _ => (ms, .skip)
   | "mkpv", _ => fail "createProperty(name, values)"
   | "xcheck", [kind, par] =>
@@ -570,6 +580,7 @@ def step (ms : MState) (op : String) (args impl : List String) : MState × Pred 
       | none => fail "xlinks")
     | _ => fail "xlinks through an uninitialised holder"
   | "dump", _ | "dumpx", _ => (ms, .skip)      -- compared by the caller
+  | "hdump", _ | "xfeat", _ => (ms, .skip)     -- judged by the impl-side rules (what handles show / features by their data array)
   | _, _ => fail s!"op {op}"
 
 end Nix.Drive.StoreModel
